@@ -365,7 +365,31 @@ static void op_builtin_insert(uint32_t j, rec_t *r, xrl_error **e) {
     r->v[0] = Crystal_AddCrystal(c, NULL, e); Crystal_Free(c);
 }
 
+/* a crystal query on a TRANSIENT object.  A pointer argument stands for what it points to: mode 0 = heap copy made by the library and released right
+   after the call (the allocator hands the same address to the next crystal), mode 1 = ONE caller-owned struct variable overwritten in place for every
+   call (atoms shared with the persistent copy), mode 2 = the persistent copy.  A result that depends on the ADDRESS (a memo keyed on the pointer)
+   differs between a history and a fresh process; args: mode, which, crystal, h, k, l, E */
+static Crystal_Struct reuse_slot;
+static void op_crystal_transient(uint32_t j, rec_t *r, xrl_error **e) {
+    int mode = I(0), which = I(1), h = I(3), k = I(4), l = I(5); double E = D(6);
+    Crystal_Struct *src = crystal_of(I(2)), *c = src;
+    xrlComplex z = { 0, 0 };
+    if (!src) { r->flags |= F_AUX; return; }
+    if (mode == 0) { c = Crystal_MakeCopy(src, NULL); if (!c) { r->flags |= F_AUX; return; } }
+    else if (mode == 1) { reuse_slot = *src; c = &reuse_slot; }
+    switch (which) {
+    case 0: r->v[0] = Crystal_dSpacing(c, h, k, l, e); break;
+    case 1: r->v[0] = Bragg_angle(c, E, h, k, l, e); break;
+    case 2: r->v[0] = Q_scattering_amplitude(c, E, h, k, l, 1.0, e); break;
+    case 3: Crystal_F_H_StructureFactor2(c, E, h, k, l, 1.0, 1.0, &z, e); r->v[0] = z.re; r->v[1] = z.im; break;
+    case 4: r->v[0] = Crystal_UnitCellVolume(c, e); break;
+    default: r->flags |= F_AUX;
+    }
+    if (mode == 0) Crystal_Free(c);
+}
+
 const op_t optab[] = {
+    { "crystal_transient", op_crystal_transient },
     { "CompoundParser", op_CompoundParser }, { "add_compound_data", op_add_compound_data },
     { "NISTByName", op_NISTByName }, { "NISTByIndex", op_NISTByIndex }, { "NISTList", op_NISTList },
     { "RadioByName", op_RadioByName }, { "RadioByIndex", op_RadioByIndex }, { "RadioList", op_RadioList },
